@@ -4,7 +4,7 @@
 const char* PROPERTY = "C14";
 const int LMAX = 64;
 const char* RULE =
-    "enum: all 20 ordered pairs d1!=d2 in {2..6} x 51 binary entry points (+ and - in every value-category overload, scalar product, SUTrace with and without guarantee flags that do not include EqualSizes, "
+    "enum: all 20 ordered pairs d1!=d2 in {2..6} x 54 binary entry points (+ and - in every value-category overload, scalar product, SUTrace with and without guarantee flags that do not include EqualSizes, "
     "commutator, anticommutator, the four ElementwiseOperation and four ElementwiseProduct overloads, += -= of a vector and of a proxy, "
     "Evolve(op,t) in both roles, Rotate(matrix); the members of unevaluated expressions: Evolve by a vector and by an expression, + - and scalar product with vectors and "
     "expressions; Rotate / UTransform / UDaggerTransform by square matrices of the other dimension and by d1 x d2 and d2 x d1 ones, UTransform(vector,scale), "
@@ -24,8 +24,9 @@ static const char* EP[] = {"a+b", "a+move(b)", "move(a)+b", "move(a)+move(b)", "
                            "(a+a2).Evolve(b,t)", "(a*2).Evolve(b,t)", "iCommutator(a,a2).Evolve(b,t)", "(a+a2).Evolve(b*2,t)", "a.Evolve(b*2,t)", "(a+a2)+b", "(a+a2)-b",
                            "(a+a2)+(b+b2)", "(a+a2)-(b+b2)", "(a+a2)*(b+b2)", "a*(b+b2)", "a+(b+b2)", "a.Rotate(d1 x d2)", "a.Rotate(d2 x d1)",
                            "a.UTransform(matrix_d2)", "a.UDaggerTransform(matrix_d2)", "a.UTransform(d1 x d2)", "a.UDaggerTransform(d2 x d1)", "a.UTransform(b,i)",
-                           "a.WeightedRotation(V,b,W)", "a.WeightedRotation(V_d2,a2,W)", "a.WeightedRotation(V,a2,W_d2)"};
-static const int NEP = 51;
+                           "a.WeightedRotation(V,b,W)", "a.WeightedRotation(V_d2,a2,W)", "a.WeightedRotation(V,a2,W_d2)",
+                           "a.Rotate(r x c, rc=d1^2)", "a.UTransform(r x c, rc=d1^2)", "a.UDaggerTransform(r x c, rc=d1^2)"};
+static const int NEP = 54;
 
 struct Operand {
   double* ext; SU_vector v; std::vector<double> c; const double* addr; int d; int kind;
@@ -105,6 +106,14 @@ static bool call_binary(int ep, SU_vector& a, SU_vector& b, int d2) {
       case 44: { GslMat g(Mat::identity(d2)); SU_vector r = a.UDaggerTransform(g.m); break; }
       case 45: { GslMat g(d1, d2); SU_vector r = a.UTransform(g.m); break; }
       case 46: { GslMat g(d2, d1); SU_vector r = a.UDaggerTransform(g.m); break; }
+      case 51: case 52: case 53: {  // r x c with as many entries as a d1 x d1 matrix, but not square (d2 selects the factor pair)
+        std::vector<std::pair<int, int>> shapes;
+        for (int r = 1; r <= d1 * d1; r++) if ((d1 * d1) % r == 0 && r != d1) shapes.push_back({r, d1 * d1 / r});
+        auto sh = shapes[(size_t)d2 % shapes.size()];
+        GslMat g(sh.first, sh.second);
+        if (ep == 51) { SU_vector r = a.Rotate(g.m); } else if (ep == 52) { SU_vector r = a.UTransform(g.m); } else { SU_vector r = a.UDaggerTransform(g.m); }
+        break;
+      }
       case 47: { SU_vector r = a.UTransform(b, gsl_complex_rect(0.0, 1.0)); break; }
       case 48: { GslMat V(Mat::identity(d1)), W(Mat::identity(d1)); a.WeightedRotation(V.m, b, W.m); break; }
       case 49: { GslMat V(Mat::identity(d2)), W(Mat::identity(d1)); a.WeightedRotation(V.m, a2, W.m); break; }
